@@ -145,7 +145,8 @@ class GlobalCoords(GlobalCoordsABC):
             high_level_object = klass_gen(*args[key], *ar, **kwargs[key], **kw)
 
             # Special case SkyCoord to get a pretty name
-            if isinstance(high_level_object, SkyCoord):
+            # (unless another dropped coordinate in the same frame already has that name)
+            if isinstance(high_level_object, SkyCoord) and high_level_object.name not in new_internal_coords:
                 names = high_level_object.name
 
             new_internal_coords[names] = (physical_types, high_level_object)
